@@ -30,6 +30,12 @@ def configs(tier, seed, salt):
                      "regs": [[dw_ * start if start <= 4 else dw_, "rw", 0, None], [w, "rw", start, None], [8, "r", start + chunks + 1, None]]})
         cfgs.append({"dw": dw_, "aw": 5, "align": 0, "ov": 1,
                      "regs": [[w, "rw", 0, None], [w, "rw", chunks, None], [w, "r", 2 * chunks, None]]})
+    # sharing limits on layouts whose highest address is a power of two minus one / a power of two (the last doubling of the
+    # shadow is needed): one register per address, limit 0 and 1
+    for dw_, layout in [(8, [(8, "w", 0), (8, "w", 1), (8, "w", 2), (8, "r", 3)]), (8, [(8, "rw", 0), (8, "rw", 4)]),
+                        (8, [(8, "rw", a) for a in range(5)]), (16, [(16, "r", 0), (16, "r", 1), (16, "rw", 2)])]:
+        for ov in (0, 1):
+            cfgs.append({"dw": dw_, "aw": 4, "align": 0, "ov": ov, "regs": [[w, acc, addr, None] for w, acc, addr in layout]})
     for c in list(cfgs):
         for ov in (None, 0, 1, 2):
             if c["regs"] and ov != c["ov"] and rng.random() < (0.5 if tier == "quick" else 1.0):
@@ -85,24 +91,54 @@ def build(cfg):
 
 
 def must_accept(cfg):
-    """With no sharing limit (shadow_overlaps=None) every layout that the memory map itself accepts must give a working
-    multiplexer: a refusal then comes from Multiplexer/_Shadow and is a violation.  With a limit, or when the layout does not fit
-    the map, a refusal is legitimate."""
-    if cfg["ov"] is not None:
-        return False
+    """When is a refusal by the multiplexer a violation?
+    * no sharing limit (shadow_overlaps=None): every layout that the memory map itself accepts must give a working multiplexer;
+    * with a limit L: the limit must not change observable behaviour (C05), so a layout may only be turned down when NO shadow
+      size can honour the limit.  Reference, written from the docstring of _Shadow.decode_address (offset = upper bits of the
+      register's start below the shadow size | lower bits of the address below the register's rounded size): if for some
+      power-of-two shadow size up to 2**ceil_log2(highest end) every offset is used by at most max(L, 1) registers - the
+      STRICTEST reading of "at most L registers share a chunk" - the multiplexer has no reason to refuse.
+    A layout that does not fit the memory map is refused legitimately."""
     from amaranth.lib import wiring
     from amaranth_soc.memory import MemoryMap
 
     class R(wiring.Component):
         def __init__(self):
             super().__init__({})
+    regs = []
     try:
         mm = MemoryMap(addr_width=cfg["aw"], data_width=cfg["dw"], alignment=cfg["align"])
         for i, (w, acc, addr, al) in enumerate(cfg["regs"]):
-            mm.add_resource(R(), name=f"r{i}", size=(w + cfg["dw"] - 1) // cfg["dw"], addr=addr, alignment=al)
+            s, e = mm.add_resource(R(), name=f"r{i}", size=(w + cfg["dw"] - 1) // cfg["dw"], addr=addr, alignment=al)
+            regs.append((s, e, acc))
     except (ValueError, TypeError):
         return False
-    return "multiplexer-without-sharing-limit"
+    if cfg["ov"] is None:
+        return "multiplexer-without-sharing-limit"
+    if not isinstance(cfg["ov"], int) or cfg["ov"] < 0:
+        return False
+    limit = max(cfg["ov"], 1)
+    for side in ("r", "w"):
+        ranges = [(s, e) for s, e, acc in regs if side in acc]
+        if not ranges:
+            continue
+        top = max(e for s, e in ranges)
+        ok = False
+        size = 1
+        while size <= 2 ** max(0, (top - 1).bit_length()):
+            users = {}
+            for s, e in ranges:
+                rsize = 1 << max(0, (e - s - 1).bit_length())
+                for a in range(s, e):
+                    off = (s & (size - 1) & ~(rsize - 1)) | (a & (rsize - 1))
+                    users.setdefault(off, set()).add(s)
+            if all(len(u) <= limit for u in users.values()):
+                ok = True
+                break
+            size *= 2
+        if not ok:
+            return False
+    return "multiplexer-balanceable-within-the-sharing-limit"
 
 
 def netlist(ctx, cfg):
